@@ -77,6 +77,25 @@ func (fx *fexec) externModel(key string, x *ssa.Call, f *ssa.Function, args []Va
 		}
 		vc.note("extern " + key + ": returns an unconstrained string (assumed)")
 		return vc.freshResult(st, rt, x.Name()), true
+	case "fmt.Appendf":
+		// fmt.Appendf(nil, <format>, ...): a fresh byte slice whose text (bytestr) is the
+		// formatted string (only for the formats formatModel understands, `strings smt`)
+		if vc.strSMT && len(x.Call.Args) == 3 {
+			if c, isNil := x.Call.Args[0].(*ssa.Const); isNil && c.Value == nil {
+				if t, ok := fx.formatModel(x.Call.Args[1], x.Call.Args[2]); ok {
+					vc.note("extern fmt.Appendf(nil, constant format, ...): a fresh byte slice spelling the formatted text (assumed from its documentation)")
+					s := vc.define(x.Name()+"_s", t)
+					n := app(SInt, "str.len", s)
+					res := vc.allocSlice(st, types.Typ[types.Byte], n, n, x.Name())
+					vc.declUF("bytestr", "("+SSlice+") String")
+					vc.assert(eq(app("String", "bytestr", res.T), s))
+					res.Ty = rt
+					return res, true
+				}
+			}
+		}
+		vc.note("extern fmt.Appendf: returns an unconstrained byte slice (assumed)")
+		return vc.freshResult(st, rt, x.Name()), true
 	case "fmt.Sprint", "strconv.Itoa", "strconv.FormatInt":
 		vc.note("extern " + key + ": returns an unconstrained string (assumed)")
 		return vc.freshResult(st, rt, x.Name()), true
@@ -269,18 +288,29 @@ func (fx *fexec) ifaceModel(name string, x *ssa.Call, recv Val, args []Val, st *
 // consists of literal text and plain %s verbs and every operand is a string-typed value
 // boxed at the call site; the result is then the concatenation. Anything else: no model.
 func (fx *fexec) sprintfModel(x *ssa.Call) (Term, bool) {
-	vc := fx.vc
-	cc := &x.Call
-	if len(cc.Args) != 2 {
+	if len(x.Call.Args) != 2 {
 		return Term{}, false
 	}
-	fc, ok := cc.Args[0].(*ssa.Const)
+	return fx.formatModel(x.Call.Args[0], x.Call.Args[1])
+}
+
+// itoaTerm is the decimal rendering of an integer (SMT str.from_int, with the sign).
+func itoaTerm(v Term) Term {
+	return ite(ge(v, intLit(0)), app("String", "str.from_int", v), app("String", "str.++", Term{"\"-\"", "String"}, app("String", "str.from_int", sub(intLit(0), v))))
+}
+
+// formatModel: the string a fmt verb-formatting call produces for a constant format of
+// literal text, %s on string operands, %v/%d on integer operands (decimal) and %x on
+// integer operands (an uninterpreted rendering hexOf). Anything else: no model.
+func (fx *fexec) formatModel(fmtArg, varArg ssa.Value) (Term, bool) {
+	vc := fx.vc
+	fc, ok := fmtArg.(*ssa.Const)
 	if !ok || fc.Value == nil || fc.Value.Kind() != constant.String {
 		return Term{}, false
 	}
 	format := constant.StringVal(fc.Value)
 	var ops []ssa.Value
-	switch v := cc.Args[1].(type) {
+	switch v := varArg.(type) {
 	case *ssa.Const: // nil variadic slice
 	case *ssa.Slice:
 		al, ok := v.X.(*ssa.Alloc)
@@ -347,6 +377,26 @@ func (fx *fexec) sprintfModel(x *ssa.Call) (Term, bool) {
 				lit = ""
 			}
 			parts = append(parts, fx.val(ops[k]).T)
+			k++
+		case 'v', 'd', 'x':
+			if k >= len(ops) || ops[k] == nil {
+				return Term{}, false
+			}
+			bt, ok := ops[k].Type().Underlying().(*types.Basic)
+			if !ok || bt.Info()&types.IsInteger == 0 || ops[k].Type() != types.Type(bt) {
+				return Term{}, false // named integer types may have a String method
+			}
+			if lit != "" {
+				parts = append(parts, vc.strLit(lit))
+				lit = ""
+			}
+			iv := vc.toInt(fx.val(ops[k]))
+			if format[i] == 'x' {
+				vc.declUF("hexOf", "(Int) String")
+				parts = append(parts, app("String", "hexOf", iv))
+			} else {
+				parts = append(parts, itoaTerm(iv))
+			}
 			k++
 		default:
 			return Term{}, false
